@@ -8,7 +8,7 @@ PROOF_MODULES = ["GrpcProofs.Properties.C16"]
 THEOREMS = ["GrpcProofs.C16." + t for t in (
     "chan_set_iff_trf_ge_limit", "reader_blocked_only_if_ge_limit", "released_when_below_or_closed",
     "put_after_close_rejected", "closed_is_permanent", "finish_closes",
-    "each_queued_clientHeaders_orphaned_exactly_once", "no_panic", "consumer_no_lost_wakeup", "monitor_ok")]
+    "each_queued_clientHeaders_orphaned_exactly_once", "accepted_clientHeaders_delivered_or_orphaned", "no_panic", "consumer_no_lost_wakeup", "monitor_ok")]
 DESIGN_REF = "DESIGN.md section 8, C16"
 TECHNIQUE = ("Lean 4 theorems over a small-step interleaving model of controlBuffer (executeAndPut, the locked part of get, finish are atomic under c.mu; "
              "throttle() is two atomic steps - the lock-free trfChan.Load and the wait on that channel generation; channel generations are numbered so a "
@@ -18,12 +18,14 @@ LEVEL_TEXT = ("Machine-checked Lean proofs, for every interleaving of producers,
               "steps) and close, and for every throttle limit >= 1: trfChan is set iff at least `limit` throttled items are queued (while open); a reader is "
               "blocked only then; as soon as the count is below the limit or the buffer/done is closed no reader is blocked, whatever generation it loaded "
               "(no lost wake-up); after finish every put is rejected; delivered ++ queued = accepted and finish orphans exactly the queued clientHeaders, each "
-              "once; no nil/double channel close; the parked writer is never left without a wake-up token while items are queued. The model is replayed "
+              "once, so an accepted clientHeaders is always either handed to the writer or orphaned (a put concurrent with finish is ordered by c.mu before or after it); no nil/double channel close; the parked writer is never left without a wake-up token while items are queued. The model is replayed "
               "against the real controlBuffer on every run.")
 LEVEL_NOTE = ("Trusted: Lean kernel; the hand model lean/GrpcModel/Model/ControlBuf.lean; atomicity of sync.Mutex sections, atomic.Pointer and channel close "
               "(the model's atomic steps). The T2 tie is op-level: each op runs to quiescence in a synctest bubble, then the result of the op, the ids orphaned, "
               "the consumer goroutine's result and the set of reader goroutines still inside throttle() are compared with the model and judged by the monitor. "
-              "The individual interleavings of a reader's trfChan.Load with its wait and with concurrent get/put/finish (the lost-wake-up window) cannot be "
+              "One interleaving class IS forced: operations arriving while finish() is in the middle of its orphan sweep (finish is held inside an onOrphaned callback; "
+              "the racing puts/gets must be parked on c.mu or have returned before it is released) - a finish that drops the lock there accepts or serves them and is "
+              "reported. The individual interleavings of a reader's trfChan.Load with its wait and with concurrent get/put/finish (the lost-wake-up window) cannot be "
               "forced without hooks in throttle(); they are covered by the theorems (released_when_below_or_closed quantifies over them) only, and exercised "
               "opportunistically by the bubble's scheduler. executeAndPut with a non-nil f that returns false does not touch the buffer and is not driven. "
               "'Failed exactly once' for a stream-creation request rejected AFTER close is the error return of executeAndPut (the caller fails the stream), "
@@ -33,7 +35,9 @@ GAP = "fine-grained schedules inside throttle(); dataFrame buffers freed in fini
 ASSUMPTIONS = ["throttle limit >= 1 (envconfig clamps ControlBufferThrottleLimit to 1..10000)", "single consumer of get (loopy) - caller contract"]
 RULE = ("random cases: limit 1..5, then 10-45 ops from put throttled / unthrottled / clientHeaders, non-blocking get, blocking consumer goroutine, new reader "
         "goroutines calling throttle(), finish, done, with phases biased to push the throttled count across the limit in both directions repeatedly; plus "
-        "directed fill-drain-refill cases per limit. Non-trivial = some reader was observed blocked; distinct = distinct op text.")
+        "directed fill-drain-refill cases per limit; `finishrace`: finish() is held inside the onOrphaned callback of its orphan sweep (harness hook in the "
+        "clientHeaders the harness itself queued) while 1-4 puts / gets run in their own goroutines until each has returned or is parked on c.mu (read off the "
+        "goroutine dump), in ~60% of the random closes and in 3 directed cases per limit. Non-trivial = some reader was observed blocked; distinct = distinct op text.")
 
 
 def one_case(rng, limit, n):
@@ -79,7 +83,26 @@ def one_case(rng, limit, n):
             rid += 1
             ops.append("thr %d" % rid)
         elif r < pput + pget + 0.235:
-            ops.append("finish")
+            if rng.random() < 0.6:
+                # finish() held inside its orphan sweep while producers / the writer arrive
+                items = []
+                for _k in range(rng.randrange(1, 4)):
+                    if rng.random() < 0.8:
+                        nid += 1
+                        items.append("p%s%d" % (rng.choice("thhu"), nid))
+                    elif not parked:
+                        items.append("g")
+                # make sure there is something to orphan (most of the time)
+                if rng.random() < 0.85 and not closed:
+                    nid += 1
+                    ops.append("put h %d" % nid)
+                    if parked:
+                        parked = False
+                        nid += 1
+                        ops.append("put h %d" % nid)
+                ops.append("finishrace " + " ".join(items) if items else "finish")
+            else:
+                ops.append("finish")
             closed = True
             queued = 0
         elif r < pput + pget + 0.245:
@@ -119,6 +142,23 @@ def gen(rng, tier):
         i += 1; ops.append("put t %d" % i)
         ops += ["thr 8", "finish", "thr 9", "put t 99", "put h 100", "get", "finish", "done"]
         yield Case("s_controlbuf", ops, "cb-directed-%d" % limit)
+        # directed: close racing with producers and the writer (finish held inside onOrphaned)
+        for variant in range(3):
+            ops = ["limit %d" % limit]
+            i = 0
+            for _ in range(limit):
+                i += 1; ops.append("put t %d" % i)
+            ops.append("thr 1")
+            i += 1; ops.append("put h %d" % i)
+            if variant >= 1:
+                i += 1; ops.append("put u %d" % i)
+                i += 1; ops.append("put h %d" % i)
+            race = ["ph%d" % (i + 1), "pt%d" % (i + 2)]
+            if variant == 2:
+                race += ["g", "ph%d" % (i + 3)]
+            ops.append("finishrace " + " ".join(race))
+            ops += ["put h %d" % (i + 10), "get", "finishrace ph%d" % (i + 11), "done"]
+            yield Case("s_controlbuf", ops, "cb-finishrace-%d-%d" % (limit, variant))
     for i in range(n):
         limit = rng.choice([1, 1, 2, 2, 3, 3, 4, 5])
         yield Case("s_controlbuf", one_case(rng, limit, rng.randrange(10, 46)), "cb-rand-%d" % limit)
